@@ -130,7 +130,7 @@ def run(ctx):
     _reuse(ctx, _c15.evidence_dtype_rule, ("C15.evid",), "C08evid", "precision rule shared with C15: the total is rebuilt from the recorded series; increments narrowed to Python floats come back in the "
            "namespace's default width (float32 under torch), so the reported log-evidence is not the sum of the recorded increments to the run's precision")
     from . import c10 as _c10
-    _reuse(ctx, lambda c: _c10.own_rule(c, fields=SERIES), ("C10.own",), "C08own", "ownership rule shared with C10: the recorded increments are summed again by every later reader (a resumed run, "
+    _reuse(ctx, lambda c: _c10.own_rule(c, fields=SERIES, strict=True), ("C10.own",), "C08own", "ownership rule shared with C10: the recorded increments are summed again by every later reader (a resumed run, "
            "a second look at the history); an accumulation that happens inside the first recorded item changes the series it is the sum of")
     _reuse(ctx, _c11.run, ("C11.cut",), "C08cut", "cut-point rule shared with C11: a checkpoint taken before the iteration's ratio is recorded makes a resumed run drop that step from the evidence")
     S = repo.cls("aspire.samples:SMCSamples")
